@@ -28,6 +28,7 @@ static keyset_t *K[NVARIANTS];
 static const alg_t *A;
 static int g_a, g_dir;
 static long long n_eval, n_cmp, n_dec;
+static const char *g_geom; /* set while a DOCSIS frame geometry other than the canonical one is exercised */
 
 static void
 viol(const char *site, int v, uint32_t len, int ivc, const char *detail, long x)
@@ -45,6 +46,8 @@ viol(const char *site, int v, uint32_t len, int ivc, const char *detail, long x)
         rec_i("len", len);
         rec_i("iv_class", ivc);
         rec_i("x", x);
+        if (g_geom)
+                rec_s("geometry", g_geom);
         rec_end();
 }
 static void
@@ -123,6 +126,53 @@ span(uint32_t len)
         if (A->family == F_DOCSISCRC)
                 nb = len + 12;
         return nb;
+}
+
+/* DOCSIS-SEC + CRC32 frame geometries the job check accepts besides the canonical one (cipher range from hash start + 12
+ * to the end of the CRC field): a later cipher start and / or a cipher range that ends before the CRC field. */
+static void
+docsis_geometry(void)
+{
+        g_geom = "non-canonical";
+        for (g_dir = 1; g_dir >= 0; g_dir--)
+                for (uint32_t hl = 14; hl <= (tier_thorough() ? 300u : 90u); hl++)
+                        for (uint32_t coff = 12; coff <= 16; coff += 2)
+                                for (uint32_t short_by = 0; short_by <= 20; short_by += (coff == 12 && short_by == 0) ? 1 : 3) {
+                                        if (coff == 12 && short_by == 0)
+                                                continue; /* canonical: covered by the main sweep */
+                                        if (hl < 8 + (coff - 12) + short_by)
+                                                continue;
+                                        uint32_t clen = hl - 8 - (coff - 12) - short_by;
+                                        size_t nb = hl + 32;
+                                        int st0 = 0, e0 = 0, first = -1;
+                                        for (int v = 0; v < NVARIANTS; v++) {
+                                                if (!M[v])
+                                                        continue;
+                                                wb_t *b = first < 0 ? &W[0] : &W[1];
+                                                inputs(b, (uint32_t) nb, 0, clen);
+                                                item_t it;
+                                                mk(&it, b, v, g_dir, clen);
+                                                it.hash_off = 0;
+                                                it.hash_len = hl;
+                                                it.cipher_off = coff;
+                                                int e, st = run(v, &it, &e, 0);
+                                                n_eval++;
+                                                if (first < 0) {
+                                                        first = v;
+                                                        st0 = st;
+                                                        e0 = e;
+                                                        continue;
+                                                }
+                                                n_cmp++;
+                                                if (st != st0 || e != e0)
+                                                        viol("status-differs", v, clen, (int) coff, "status / error code differs from the first variant (x = hash length)", hl);
+                                                else if (st == IMB_STATUS_COMPLETED && memcmp(W[0].src, W[1].src, nb + 64))
+                                                        viol("output-differs", v, clen, (int) coff, "frame bytes differ from the first variant's (x = hash length, iv_class = cipher offset)", hl);
+                                                else if (st == IMB_STATUS_COMPLETED && memcmp(W[0].tag, W[1].tag, 4))
+                                                        viol("tag-differs", v, clen, (int) coff, "CRC32 tag differs from the first variant's (x = hash length, iv_class = cipher offset)", hl);
+                                        }
+                                }
+        g_geom = NULL;
 }
 static void
 sweep_row(long item, void *arg)
@@ -270,6 +320,8 @@ sweep_row(long item, void *arg)
                                              st * 10000L + e);
                         }
                 }
+        if (A->family == F_DOCSISCRC)
+                docsis_geometry();
         stat_add("evaluations", n_eval);
         stat_add("cross_variant_comparisons", n_cmp);
         stat_add("recovery_jobs", n_dec);
